@@ -1398,7 +1398,7 @@ impl Function {
 
             #[cfg(mscript_verif)]
             crate::verif_hooks::trace_instruction(
-                &self.name,
+                &self.get_qualified_name(),
                 instruction_ptr,
                 instruction.id,
                 context.frames_count(),
